@@ -946,7 +946,7 @@ impl ExtensionStore {
         extend: &ExtendRule,
         media_context: &Option<Vec<CssMediaQuery>>,
         span: Span,
-    ) {
+    ) -> SassResult<()> {
         let selectors = self.selectors.get(target).cloned();
         let existing_extensions = self.extensions_by_extender.get(target).cloned();
 
@@ -974,7 +974,7 @@ impl ExtensionStore {
                 // If there's already an extend from `extender` to `target`, we don't need
                 // to re-run the extension. We may need to mark the extension as
                 // mandatory, though.
-                let mut new_val = MergedExtension::merge(existing_state.clone(), state).unwrap();
+                let mut new_val = MergedExtension::merge(existing_state.clone(), state)?;
                 sources.get_mut(&complex).replace(&mut new_val);
                 continue;
             }
@@ -1007,7 +1007,7 @@ impl ExtensionStore {
         let new_extensions = if let Some(new) = new_extensions {
             new
         } else {
-            return;
+            return Ok(());
         };
 
         let mut new_extensions_by_target = HashMap::new();
@@ -1024,6 +1024,8 @@ impl ExtensionStore {
         if let Some(selectors) = selectors {
             self.extend_existing_selectors(selectors, &new_extensions_by_target);
         }
+
+        Ok(())
     }
 
     /// Extend `extensions` using `new_extensions`.
